@@ -277,8 +277,10 @@ def expected_stderr_put(silent, verbose):
 
 
 def match_lines(text, lines):
-    """does `text` consist of exactly these lines (a non-exact line is a prefix up to the next newline)?"""
+    """does `text` consist of exactly these lines (a non-exact line is a prefix up to the next newline)?
+    sys.stderr writes undecodable file-name bytes (lone surrogates) with errors='backslashreplace'"""
     pos = 0
+    lines = [(ln.encode('utf-8', 'backslashreplace').decode('utf-8'), ex) for ln, ex in lines]
     for ln, exact in lines:
         if exact:
             if not text.startswith(ln + '\n', pos):
